@@ -189,3 +189,29 @@ Example ex_linkage_sum :
   C19_Model.certs_ok C19_Complexes.ex_net nil ex_rc [:: ex_cc] = true /\
   C19_Model.linkage_deficiencies (C19_Model.linkage_classes C19_Complexes.ex_arcs 3) [:: 2%nat] = [:: 0%Z].
 Proof. by split; vm_compute. Qed.
+
+(** each class deficiency, with the exact rank of the class's difference vectors *)
+Lemma linkage_deficiency_nth L ranks c : length ranks = length L -> (c < length L)%coq_nat ->
+  List.nth c (C19_Model.linkage_deficiencies L ranks) 0%Z
+  = (Z.of_nat (length (List.nth c L nil)) - 1 - Z.of_nat (List.nth c ranks 0%nat))%Z.
+Proof.
+move=> E Hc; rewrite /C19_Model.linkage_deficiencies.
+have Hl : (c < length (List.combine L ranks))%coq_nat by rewrite List.combine_length E Nat.min_id.
+rewrite (List.nth_indep _ 0%Z ((fun p : seq N * nat => (Z.of_nat (length p.1) - 1 - Z.of_nat p.2)%Z) (nil, 0%nat))); last by rewrite List.map_length.
+by rewrite List.map_nth List.combine_nth.
+Qed.
+
+Theorem class_deficiency_exact net iso (rc : C17_Model.rcert) (ccs : seq C17_Model.rcert) c :
+  C19_Model.certs_ok net iso rc ccs = true ->
+  let L := C19_Model.linkage_classes (snd (C19_Model.complex_graph net iso)) (length (fst (C19_Model.complex_graph net iso))) in
+  let m := length (C17_Model.species_order net iso) in
+  let D := C19_Bridge.cdiffs net iso c in
+  (c < length L)%coq_nat ->
+  List.nth c (C19_Model.linkage_deficiencies L (List.map C17_Model.rc_r ccs)) 0%Z
+  = (Z.of_nat (length (List.nth c L nil)) - 1 - Z.of_nat (\rank (toM (length D) m D)))%Z.
+Proof.
+move=> /C19_Bridge.certs_ok_spec [] _ [] El Ec L m D Hc.
+rewrite linkage_deficiency_nth ?List.map_length //.
+rewrite (List.nth_indep _ 0%nat (C17_Model.rc_r C19_Bridge.dummy_cert)); last by rewrite List.map_length El.
+by rewrite List.map_nth (C17_Rank.rank_checked_sound (Ec c Hc)).
+Qed.
